@@ -61,6 +61,7 @@ def countOk (a : EAgg) : Bool := a.count == stTotal a.status
     entries merged per method (URL replaced by `*`). -/
 structure RunObs where
   full : Bool
+  nondet : Bool := false      -- the harness saw two executions of the same run end differently
   fails : Nat                 -- batches rejected by `Run`
   eps : EMap
   ces : CMap
@@ -69,6 +70,8 @@ structure RunObs where
 deriving Repr
 
 structure CaseObs where
+  thr : Nat := 50
+  known : List String := []
   recs : List Rec
   runs : List RunObs
 deriving Repr
@@ -155,15 +158,34 @@ def hasDelim : List Char → Bool
 def hasDelimKey (recs : List Rec) : Bool :=
   (external recs).any fun r => hasDelim r.url.toList || hasDelim r.method.toList || r.method.toList.getLast? = some ':'
 
+/-- URL as `/`-separated segments, host first -/
+def segsC (u : String) : List (List Char) := splitCh '/' (trimC u.toList)
+
+def dedupL (l : List (List Char)) : List (List Char) :=
+  l.foldl (fun acc s => if acc.contains s then acc else acc ++ [s]) []
+
+/-- F15c class: some URL prefix has more than `thr` distinct next segments (so the tree will replace them
+    by an inferred path parameter) and at least one of them has deeper URLs below it (so whole SUBTREES
+    are merged: later insertions can converge again without `NormalizeTree` signalling it, and inner
+    inferred parameters are renamed).  Declared endpoints count as URLs. -/
+def deepFanout (thr : Nat) (urls : List String) : Bool :=
+  let us := urls.map segsC
+  us.any fun u =>
+    (List.range u.length).any fun i =>
+      decide (1 ≤ i) &&
+      (let under := us.filter fun v => v.take i == u.take i && decide (i < v.length)
+       decide (thr < (dedupL (under.filterMap (·[i]?))).length) && under.any fun v => decide (i + 2 ≤ v.length))
+
 /-- The whole property on one case. -/
 def holds (c : CaseObs) : Bool :=
-  c.runs.all (fun o => o.fails == 0 && conserves c.recs o) &&
+  c.runs.all (fun o => !o.nondet && o.fails == 0 && conserves c.recs o) &&
   batchInvariant (c.runs.filter (·.full))
 
 /-- Which known finding (if any) explains a failing case. -/
 def finding (c : CaseObs) : Option String :=
   if hasBadUrl c.recs then some "F15a"
   else if hasDelimKey c.recs && c.runs.any (fun o => !o.full) then some "F15b"
+  else if deepFanout c.thr (c.known ++ (external c.recs).map (·.url)) then some "F15c"
   else none
 
 end LunarVerif.C15
